@@ -133,7 +133,9 @@ def make_param(param, tname, rng):
         return param.Number(default=Gen()), dict(kind='gen', instantiate=True)
     if tname == 'sel':
         objs = [('o', tokn()) for _ in range(3)]
-        return param.Selector(objects=objs, default=objs[0]), dict(kind='sel', instantiate=False, objs=objs)
+        # (also types that inherit the Selector's attributes: the older ObjectSelector, a user-defined subclass)
+        T = rng.choice([param.Selector, param.Selector, param.ObjectSelector, _user_selector(param)])
+        return T(objects=objs, default=objs[0]), dict(kind='sel', instantiate=False, objs=objs)
     if tname == 'esel':
         # declared without objects: assignments are not checked and grow the objects list of the Parameter they go through
         return (param.Selector(objects=[], check_on_set=False) if rng.random() < 0.5 else param.Selector()), dict(kind='esel', instantiate=False)
@@ -147,6 +149,14 @@ def make_param(param, tname, rng):
 
 META = {'esel': ['objects', 'doc'], 'gen': ['step', 'doc'], 'num': ['bounds', 'step', 'doc', 'label'], 'sel': ['objects', 'doc'], 'list': ['doc', 'label', 'precedence'],
         'dict': ['doc'], 'tuple': ['doc', 'precedence'], 'tok': ['doc']}
+
+
+def _user_selector(param):
+    if 'UserSel' not in _st:
+        class UserSel(param.Selector):
+            """a user-defined Selector type (adds nothing of its own)"""
+        _st['UserSel'] = UserSel
+    return _st['UserSel']
 
 
 def composite_case(idx, rng, P, rep):
@@ -546,6 +556,10 @@ def run_case(idx, rng, P, rep):
         elif c < 0.8:
             ci = rng.randrange(len(classes))
             p = rng.choice(names)
+            own_objects = [n_ for n_ in names if 'objects' in META[specs[n_]['kind']]
+                           and any(K.param[n_] is not classes[ci].param[n_] for K in classes)]
+            if own_objects and rng.random() < 0.6:
+                p = rng.choice(own_objects)
             sp = specs[p]
             a = rng.choice([x for x in META[sp['kind']] if x != 'objects'] or ['doc'])
             t = tokn()
